@@ -102,7 +102,13 @@ def cases(seed, tier, shard, nshards):
         if r < 0.55:
             c = frag_set_case(rng)
         elif r < 0.75:
-            c = MC.random_cut_case(rng, rng.choice([3, 6, 10, 16]), ctor='string')
+            special = rng.random() < 0.25
+            c = MC.random_cut_case(rng, rng.choice([3, 6, 10, 16]), ctor='string', plain_names=special)
+            if c and special and c['nfrag'] <= 6 and 'second_definition_of_a_defined_name' not in c['features']:
+                # fragment names as force fields have them (PEG-OH, NA+, C1'): the reader takes them, so the writer must
+                pool = ['PEG-OH', 'NA+', 'CL-', "C1'", 'N-ter', 'B*']
+                c = MC.rename_fragments(c, dict(zip(('F%d' % i for i in range(c['nfrag'])), rng.sample(pool, c['nfrag']))))
+                c['features'] = sorted(set(c['features']) | {'fragment_names_with_special_characters'})
             if c:
                 c = dict(c, kind='complete', string=c['base_string'] + '.' + c['frag_string'], coarse_last=False,
                          features=sorted(set(c['features']) | {'complete_cut'}))
